@@ -7,7 +7,7 @@ From DD Require Export Base.Py.
 
 Inductive usage_error :=
 | InputNotRegular | OutputIsInput | NoCommand | CommandNotRegular | CommandNotExecutable
-| CrossCheckNotRegular | CrossCheckNotExecutable | JobsBelowOne.
+| CrossCheckNotRegular | CrossCheckNotExecutable | JobsBelowOne | OutputUnusable | LimitNotANumber | InputNotDecodable.
 
 Inductive outcome :=
 | Completed                         (* minimisation ran to completion (also: nothing could be minimised) *)
@@ -22,10 +22,13 @@ Inductive outcome :=
 (* what check_options and the golden runs see *)
 Record invocation := mk_inv {
   in_regular : bool;
+  out_ok : bool;                    (* the directory of the output file exists and the output file is not a directory *)
   out_is_in : bool;                 (* the output file exists and is the input file *)
   parser_test : bool; has_cmd : bool; cmd_regular : bool; cmd_exec : bool;
   has_cc : bool; cc_regular : bool; cc_exec : bool;     (* cross-check command *)
   jobs_ok : bool;                   (* -j >= 1 *)
+  limits_ok : bool;                 (* --timeout, --timeout-cc, --memout are numbers the operating system accepts *)
+  in_decodable : bool;              (* the input file is valid UTF-8 *)
   cmd_runs : bool; cc_runs : bool;  (* the system can execute the file (valid executable format) *)
   golden_has_match : bool;          (* every configured match string occurs in the golden run *)
   interrupted : bool;               (* SIGINT delivered during the run *)
@@ -33,6 +36,7 @@ Record invocation := mk_inv {
 
 Definition run_cli (i : invocation) : outcome :=
   if negb (in_regular i) then Usage InputNotRegular
+  else if negb (out_ok i) then Usage OutputUnusable
   else if out_is_in i then Usage OutputIsInput
   else if parser_test i then ParserTest
   else if negb (has_cmd i) then Usage NoCommand
@@ -41,6 +45,8 @@ Definition run_cli (i : invocation) : outcome :=
   else if has_cc i && negb (cc_regular i) then Usage CrossCheckNotRegular
   else if has_cc i && negb (cc_exec i) then Usage CrossCheckNotExecutable
   else if negb (jobs_ok i) then Usage JobsBelowOne
+  else if negb (limits_ok i) then Usage LimitNotANumber
+  else if negb (in_decodable i) then Usage InputNotDecodable
   else if negb (cmd_runs i) then CommandCannotRun
   else if negb (golden_has_match i) then MatchStringMissing
   else if has_cc i && negb (cc_runs i) then CommandCannotRun
